@@ -13,6 +13,7 @@ include!(concat!(env!("OUT_DIR"), "/subject_mods.rs"));
 pub mod clock;
 pub mod common;
 pub mod engine_b;
+pub mod engine_e;
 pub mod engine_f;
 pub mod engine_i;
 pub mod engine_p;
@@ -545,8 +546,36 @@ fn run_replay(path: &str) -> i32 {
             }
             (vec![format!("input {}", doc["input"])], vs)
         }
+        "E" => match engine_e::replay(&doc["config"]) {
+            Ok(vs) => (vec![format!("configuration {}", doc["config"])], vs),
+            Err(e) => {
+                eprintln!("{}", e);
+                return 2;
+            }
+        },
+        "B" => {
+            let mut found = None;
+            for th in [false, true] {
+                for (cfg, _) in engine_b::configs(th) {
+                    if cfg.name == scenario {
+                        found = Some(cfg);
+                    }
+                }
+            }
+            match found.map(|cfg| explore::replay_labels::<engine_b::B>(&cfg, &labels, true)) {
+                Some(Ok(mut m)) => (m.log(), m.take_violations()),
+                Some(Err(e)) => {
+                    eprintln!("{}", e);
+                    return 2;
+                }
+                None => {
+                    eprintln!("unknown scenario {}", scenario);
+                    return 2;
+                }
+            }
+        }
         _ => {
-            eprintln!("engine {:?} has its own replay entry", engine);
+            eprintln!("engine {:?}: re-run the check itself (./check {} ) to reproduce; the file records the failing episode", engine, prop);
             return 2;
         }
     };
